@@ -38,17 +38,21 @@ warnings.filterwarnings("ignore", category=getattr(np, "ComplexWarning", None) o
 PROPERTY = "C12"
 LEVEL = "fault_enumeration"
 RULE = (
-    "Hypothesis draws a configuration: MDO scenario (SLSQP, L-BFGS-B, NLOPT_COBYLA; normalised design space or not) "
-    "or DOE scenario (LHS, PYDOE_FULLFACT, CustomDOE incl. repeated samples; with or without Jacobians), "
-    "DisciplinaryOpt over one harness discipline (x -> f, g) or a chain of two (x -> f, y; x, y -> g), 1-2 design "
-    "variables, polynomial objective (minimised, one case in four maximised) and one inequality constraint (none for "
-    "L-BFGS-B), budget 5-15, backup policy "
-    "(each function call / each iteration / both), initial file state (absent / prefix left by an earlier crashed "
-    "run and loaded / such a prefix erased with erase=True), restart with reset_iteration_counters False or True. "
-    "A reference child records K executions and a database snapshot after every store; EVERY crash point k=1..K "
-    "is then run in a forked child that dies with os._exit(17) at the start of execution k, the backup is loaded "
-    "with Database.from_hdf and compared (keys, order, names, shapes, values, exactly) with the snapshot the "
-    "policy implies, and a fresh forked child restarts with load=True. "
+    "Hypothesis draws a configuration per algorithm stream: MDO scenario (SLSQP, L-BFGS-B, NLOPT_COBYLA; normalised "
+    "design space or not; stop tolerances on/off; budgets 5-15 leaning small so that max_iter ends most runs) or DOE "
+    "scenario (LHS, PYDOE_FULLFACT, CustomDOE incl. repeated samples; with or without Jacobians); structure: "
+    "DisciplinaryOpt over one harness discipline (x -> f, g), a chain of two (x -> f, y; x, y -> g), or IDF over "
+    "independent objective and constraint disciplines (one execution per function: crashes between two functions of "
+    "a point); optionally an observable computed by its own discipline; gradients analytic, finite differences or "
+    "complex step (complex128 database keys; perturbed executions are crash points too); 1-2 design variables, "
+    "polynomial/sine objective (one case in four maximised) and one inequality constraint (none for L-BFGS-B); backup "
+    "policy (each function call / each iteration / both); initial file state (absent / prefix left by an earlier "
+    "crashed run and loaded / such a prefix erased with erase=True); restart with reset_iteration_counters False "
+    "(3 in 4) or True. A reference child logs every discipline execution and, before the listeners of every "
+    "Database.store run, the database state that store produces; EVERY crash point k=1..K is then run in a forked "
+    "child that dies with os._exit(17) at the start of execution k, the backup is loaded with Database.from_hdf and "
+    "compared (keys incl. dtype, order, names, shapes, values, exactly) with the state the policy implies, and a "
+    "fresh forked child restarts with load=True. "
     "evaluations = crash points executed; non-trivial = crash point whose backup holds 0 < n < (entries of the "
     "full run) entries; distinct = structural hash of (configuration, k)."
 )
@@ -57,18 +61,25 @@ ASSUMPTIONS = [
     "HDF5 write and power-loss semantics are outside the property",
     "an existing backup file is either loaded (load=True) or erased (erase=True) by the run that reuses it; the "
     "combination load=False, erase=False on an existing file (entries merged by index) is not exercised",
-    "DOE scenarios use normalize_design_space=False (the DOE default); normalisation is drawn for MDO scenarios only",
+    "DOE scenarios use normalize_design_space=False (the DOE default; True is C14-F4); normalisation is drawn for MDO only",
     "L-BFGS-B does not handle constraints: its configurations have an objective only",
-    "an execution at a point of the backup counts as rework only if the restarted run stored no new function at "
-    "that point (the backup entry already held everything that was requested there)",
+    "function-call backups are expected to hold the value of a store before any listener of that store executes a "
+    "discipline (an observable evaluated at a new iteration); iteration backups the state of the store that opened "
+    "the iteration",
+    "an execution at a point of the backup (same real part, no imaginary perturbation) counts as rework only if the "
+    "restarted run stored no new function at that entry (the backup entry already held everything requested there)",
     "history equality with the uninterrupted run is required for un-normalised design spaces with "
     "reset_iteration_counters=False (the documented way to complete a run from a backup); with the default "
-    "reset_iteration_counters=True the uninterrupted history must be a prefix of the restarted one",
+    "reset_iteration_counters=True the uninterrupted history must be a prefix of the restarted one; with "
+    "reset_iteration_counters=False an MDO restart (normalised or not) must end with at most max_iter entries",
+    "approximated gradients: one variable and budget 5 (each perturbed execution is an enumerated crash point); a "
+    "chain is replaced by the single discipline there",
     "sequential execution (n_processes=1), deterministic algorithms (LHS with an explicit seed)",
     "enable_progress_bar=False in every run: tqdm's process-shared lock and monitor thread must not be inherited by "
     "forked children that are killed (a harness precaution, the backup does not depend on the bar)",
     "the best loaded point is taken among backup entries holding the objective and the constraint; inequality "
-    "tolerance as set by the algorithm (1e-4); violation measures compared with a relative margin of 1e-9",
+    "tolerance as set by the algorithm (1e-4); violation measures compared with a relative margin of 1e-9; no "
+    "comparison when the reported infeasible point is a partially recorded one (no measure defined, cf. C04)",
 ]
 
 CRASH_CODE = 17
